@@ -134,7 +134,18 @@ func c07ObjOrder(c *Case) {
 	loop := func(tag string) Stmt {
 		return &ForIn{V: "k", V2: "v", It: V("obj"), Body: Blk(Pr(S(tag), V("k"), V("v")))}
 	}
-	p := &Program{Items: []any{&Rule{Kind: "pattern", Body: Blk(ES(Asg(V("obj"), src)), loop("A"), loop("B"))}}}
+	// a second object with other keys, iterated INSIDE the first loop (directly and through a function):
+	// every (outer key, inner key) pair must appear exactly once and the outer loop must carry on
+	o2 := &ObjectLit{}
+	for j := 0; j < 2+rng.IntN(3); j++ {
+		o2.Keys = append(o2.Keys, fmt.Sprintf("in%d", j))
+		o2.Quoted = append(o2.Quoted, false)
+		o2.Vals = append(o2.Vals, N(strconv.Itoa(j)))
+	}
+	nestedBody := Blk(&ForIn{V: "k2", V2: "v2", It: V("obj2"), Body: Blk(Pr(S("N"), V("k"), V("k2"), V("v2")))}, ES(CallE(V("inner"), V("k"))), Pr(S("O"), V("k"), V("v")))
+	nested := &ForIn{V: "k", V2: "v", It: V("obj"), Body: nestedBody}
+	innerFn := &Func{Name: "inner", Params: []string{"tag"}, Body: Blk(&ForIn{V: "k3", It: V("obj2"), Body: Blk(Pr(S("F"), V("tag"), V("k3")))})}
+	p := &Program{Items: []any{innerFn, &Rule{Kind: "pattern", Body: Blk(ES(Asg(V("obj"), src)), ES(Asg(V("obj2"), o2)), loop("A"), loop("B"), nested)}}}
 	text := Canon(p)
 	files := []InFile{{Name: "in.json", Data: docBytes(doc)}}
 	var first string
@@ -146,7 +157,38 @@ func c07ObjOrder(c *Case) {
 			c.Violation("objorder: for-in over an object failed: "+lib.Class+" "+lib.Msg, nil, map[string]any{"program": text})
 			return
 		}
-		lines := strings.Split(strings.TrimSuffix(string(lib.Stdout), "\n"), "\n")
+		all := strings.Split(strings.TrimSuffix(string(lib.Stdout), "\n"), "\n")
+		var lines, nest []string
+		for _, l := range all {
+			if strings.HasPrefix(l, "A ") || strings.HasPrefix(l, "B ") {
+				lines = append(lines, l)
+			} else {
+				nest = append(nest, l)
+			}
+		}
+		// nested iteration: every (outer, inner) pair once for N and F lines, every outer key once for O lines
+		cnt := map[string]int{}
+		for _, l := range nest {
+			cnt[l]++
+		}
+		nestBad := ""
+		for k := range keys {
+			if cnt[fmt.Sprintf("O %s %v", k, doc[k])] != 1 {
+				nestBad = "outer key " + k + " not visited exactly once after a nested object loop"
+			}
+			for j, k2 := range o2.Keys {
+				if cnt[fmt.Sprintf("N %s %s %d", k, k2, j)] != 1 || cnt[fmt.Sprintf("F %s %s", k, k2)] != 1 {
+					nestBad = fmt.Sprintf("pair (%s, %s) not visited exactly once in a nested object loop", k, k2)
+				}
+			}
+		}
+		if nestBad == "" && len(nest) != len(keys)*(1+2*len(o2.Keys)) {
+			nestBad = fmt.Sprintf("nested loops printed %d lines, expected %d", len(nest), len(keys)*(1+2*len(o2.Keys)))
+		}
+		if nestBad != "" {
+			c.Violation("objorder: "+nestBad, nil, map[string]any{"program": text, "stdout": string(lib.Stdout)})
+			return
+		}
 		if len(lines) != 2*n {
 			c.Violation(fmt.Sprintf("objorder: expected %d iterations, got %d lines", 2*n, len(lines)), nil, map[string]any{"program": text, "stdout": string(lib.Stdout)})
 			return
@@ -190,7 +232,7 @@ func c07Cases(tier string) int {
 	if tier == "thorough" {
 		return n + 400000
 	}
-	return n + 12000
+	return n + 60000
 }
 
 func c07Run(c *Case) {
